@@ -29,12 +29,12 @@ class Obligation:
     each {name, verdict HOLDS|CEX|INCONCLUSIVE, wall, detail, failed:[{desc}], replay_inputs?}"""
     def __init__(self, name, fn): self.name = name; self.fn = fn
 
-def run_property(pid, harnesses, tier, obligations=(), assumptions=(), outside=(), technique='', level='model_checking'):
+def run_property(pid, harnesses, tier, obligations=(), assumptions=(), outside=(), technique='', level='model_checking', partial=False):
     t0 = time.time()
     seed = int(os.environ.get('VERIF_SEED', '0') or 0)
     known = load_known()
     outdir = os.path.join(core.VERIF, 'out', pid); os.makedirs(outdir, exist_ok=True)
-    workdir = os.path.join(core.CACHE, 'work', pid)
+    workdir = os.path.join(core.CACHE, 'work', pid + '.' + core.repo_hash()[:8])      # per tree: concurrent runs against different trees must not share generated files
     results = []; raw = {}
     fatal = []
     # 1. build families / translate (parallel per harness; families locked internally)
@@ -157,7 +157,8 @@ def run_property(pid, harnesses, tier, obligations=(), assumptions=(), outside=(
                             technique=technique, repo_include_hash=core.repo_hash()),
               assumptions=list(assumptions))
     os.makedirs(os.path.join(core.VERIF, 'evidence'), exist_ok=True)
-    json.dump(ev, open(os.path.join(core.VERIF, 'evidence', pid + '.json'), 'w'), indent=1)
+    # a development run restricted with --only does not overwrite the property's evidence file (it would describe a fraction of the check)
+    json.dump(ev, open(os.path.join(outdir, 'partial_evidence.json') if partial else os.path.join(core.VERIF, 'evidence', pid + '.json'), 'w'), indent=1)
     nh = sum(1 for r in results if r['verdict'] == 'HOLDS')
     print('%s tier=%s: %d queries, %d hold, %d known, %d violations, %d inconclusive, %.1fs wall, %.1fs solver' % (
         pid, tier, len(results), nh, sum(1 for r in results if r['verdict'] == 'KNOWN'), len(violations), len(inconc), wall, sum(r.get('wall', 0) for r in results)))
